@@ -211,7 +211,7 @@ pub fn run(run: &Run) {
         let s = w.genesis.clone().seal(None);
         let model = model_of(&s, &[melstructs::CoinID::zero_zero()], &builtin_pool_keys(), &[]);
         let h0 = s.header();
-        let n = Node { real: Real::Sealed(s), model, path: std::sync::Arc::new(vec!["genesis[Custom02+stakes]".into()]), trace: std::sync::Arc::new(vec![json!({"root": "Custom02 with three stakes"})]), lineage: std::sync::Arc::new(vec![h0]) };
+        let n = Node { real: Real::Sealed(s), model, path: std::sync::Arc::new(vec!["genesis[Custom02+stakes]".into()]), trace: std::sync::Arc::new(vec![json!({"root": "Custom02 with three stakes"})]), lineage: std::sync::Arc::new(vec![h0]), salt: 0 };
         if let StepOut::Next(j) = eng.step(&n, &Action::Jump(h)) {
             roots.push((format!("Custom02+stakes@{}", h), j));
         }
